@@ -36,6 +36,13 @@ func (t intType) edge() []string {
 	return []string{"0", "1", "2", "7", new(big.Int).Sub(half, one).String(), half.String(), new(big.Int).Sub(max, one).String(), max.String()}
 }
 
+func classOfIntType(t intType) string {
+	if t.signed {
+		return "intN"
+	}
+	return "uintN"
+}
+
 var edgeOps = []string{"+", "-", "*", "/", "%", "&", "|", "^", "&^", "<<", ">>"}
 
 func typedBoundarySpace() kit.Space {
@@ -56,16 +63,22 @@ func typedBoundarySpace() kit.Space {
 			return prelude{decls: t.decl}, bin(t.name+"("+a+")", op, b), ""
 		}
 		// const m T = a; m op b
-		return prelude{decls: t.decl + "const a " + t.name + " = " + a + "\n", names: []string{"a"}}, bin("a", op, b), bin(t.name+"("+a+")", op, b)
+		return prelude{decls: t.decl + "const a " + t.name + " = " + a + "\n", names: []string{"a"}, key: "typed named constant (" + classOfIntType(t) + ") op=" + op}, bin("a", op, b), bin(t.name+"("+a+")", op, b)
 	}
 	return kit.Space{
 		Name: "15.typed-boundary",
 		Size: kit.Product(8, no, 8, 3, nt),
 		Eval: func(i uint64) kit.Outcome {
 			pre, c, inline := at(i)
-			if inline != "" && strings.HasPrefix(pre.decls, "const ") {
-				// builtin type: the same expression without the named constant is checked first
-				if o := checkCached(inline); !o.OK || strings.HasPrefix(o.Class, "skipped:") {
+			if inline != "" {
+				// the same expression without the named constant is checked first
+				var o kit.Outcome
+				if i := strings.Index(pre.decls, "const a "); i > 0 {
+					o = checkBlock(prelude{decls: pre.decls[:i]}, inline) // with the type declaration
+				} else {
+					o = checkCached(inline)
+				}
+				if !o.OK || strings.HasPrefix(o.Class, "skipped:") {
 					return o
 				}
 			}
@@ -125,7 +138,7 @@ func typedDeclSpace() kit.Space {
 	at := func(i uint64) (pre prelude, c, inline string) {
 		m := kit.Mixed(i, nf, nv, nt)
 		t, v, f := numericTypes[m[2]], typedDeclValues[m[1]], typedDeclForms[m[0]]
-		pre = prelude{decls: "const a " + t + " = " + v + "\n", names: []string{"a"}}
+		pre = prelude{decls: "const a " + t + " = " + v + "\n", names: []string{"a"}, key: "typed constant declaration (" + classOfName(t) + ")"}
 		c = strings.ReplaceAll(f, "E", paren(v))
 		inline = reName.ReplaceAllString(f, t+"("+v+")")
 		inline = strings.ReplaceAll(inline, "E", paren(v))
@@ -173,7 +186,11 @@ func constGroupSpace() kit.Space {
 		} else if s2 != "" {
 			second += " = " + s2
 		}
-		return prelude{decls: "const (\n\t" + first + "\n\t" + second + "\n)\n", names: []string{"a", "b"}}, r
+		kind := "implicit repetition"
+		if s2 != "" {
+			kind = "second spec with its own value"
+		}
+		return prelude{decls: "const (\n\t" + first + "\n\t" + second + "\n)\n", names: []string{"a", "b"}, key: "constant group, " + kind}, r
 	}
 	return kit.Space{
 		Name: "18.const-groups",
